@@ -31,19 +31,22 @@ fn configs(thorough: bool) -> Vec<Cfg> {
         vec!["core::fmt::Write", "std::io::Write", "my_crate::module::*"],
     ];
     // (the last one: derive names that are paths or carry an underscore)
-    let anns: [Option<Vec<&str>>; 5] = [
+    let anns: [Option<Vec<&str>>; 7] = [
         None,
         Some(vec![DEFAULT_ANN, "#[derive(PartialOrd, Ord)]"]),
         Some(vec![DEFAULT_ANN, "#[allow(dead_code)]"]),
         Some(vec![DEFAULT_ANN, DEFAULT_ANN]),
         Some(vec![DEFAULT_ANN, "#[derive(ext_crate::Thing, Other_Name)]"]),
+        // (derives named like traits the backend implements itself)
+        Some(vec![DEFAULT_ANN, "#[derive(Default)]"]),
+        Some(vec!["#[derive(AsnType, Debug, Clone, Decode, Encode, PartialEq, Eq, Hash, Default, From)]"]),
     ];
     let mut out = vec![];
     for bits in 0..8 {
         for (ii, imp) in imports.iter().enumerate() {
             for (ai, ann) in anns.iter().enumerate() {
                 // quick: a Latin-square style sample of the 8 x 3 x 4 lattice (24 configs)
-                if !thorough && (bits + ii + ai) % 4 != 0 && !(ai == 4 && (bits + ii) % 3 == 0) && !(ii >= 3 && (bits + ai) % 5 == 0) {
+                if !thorough && (bits + ii + ai) % 4 != 0 && !(ai >= 4 && (bits + ii) % 3 == 0) && !(ii >= 3 && (bits + ai) % 5 == 0) {
                     continue;
                 }
                 let mut c = Cfg::from_bits(bits);
@@ -241,6 +244,21 @@ fn diff(cfg: &Cfg, base: &RModule, m: &RModule) -> Option<(&'static str, String)
 }
 
 pub fn eval(ms: &ModuleSet, cfgs: &[Cfg]) -> Verdict {
+    // every input also holds types for which the backend writes trait impls of its own (a
+    // SEQUENCE / SET whose components all have a DEFAULT gets `impl Default`): an annotation
+    // that names the same trait does not document their removal
+    let mut ms = ms.clone();
+    for t in [
+        "Zd-All-Default ::= SEQUENCE { a INTEGER DEFAULT 5 , b BOOLEAN DEFAULT TRUE }",
+        "Zd-Set-Default ::= SET { a INTEGER ( 0 .. 7 ) DEFAULT 1 }",
+        "Zd-Some-Default ::= SEQUENCE { a INTEGER DEFAULT 5 , b BOOLEAN }",
+    ] {
+        let toks: Vec<String> = t.split_whitespace().map(|x| x.to_string()).collect();
+        if let Some(m0) = ms.modules.first_mut() {
+            m0.items.push(Item::Raw { name: toks[0].clone(), toks, kind: "all-default".into() });
+        }
+    }
+    let ms = &ms;
     let text = print(ms);
     let base = match comp::compile_rasn1(&text, &Cfg::default()) {
         Outcome::Ok(c) => c,
